@@ -36,9 +36,53 @@ def strip_preprocessor(text):
     out = []
     defines = {}
     lines = text.split('\n')
+    # conditional compilation: only conditions whose value is known for this build are decided (EIGEN_VERSION_AT_LEAST -> true with the installed
+    # Eigen 3.4; __cplusplus defined and > 199711L; ENABLE_DEBUG not defined); for any other condition both branches are kept, as before
+    def cond_value(directive, rest):
+        rest = rest.strip()
+        if directive in ('ifdef', 'ifndef'):
+            name = rest.split()[0] if rest.split() else ''
+            known = {'__cplusplus': True, 'ENABLE_DEBUG': False}
+            if name in known:
+                return known[name] if directive == 'ifdef' else (not known[name])
+            return None
+        if directive == 'if':
+            if rest.startswith('EIGEN_VERSION_AT_LEAST'):
+                return True
+            if re.match(r'__cplusplus\s*<=\s*199711L', rest):
+                return False
+            return None
+        return None
+    stack = []          # entries: [decided(bool), currently_active(bool), any_taken(bool)]
     i = 0
     while i < len(lines):
         ln = lines[i]
+        st = ln.lstrip()
+        mdir = re.match(r'#\s*(ifdef|ifndef|if|elif|else|endif)\b(.*)$', st)
+        if mdir:
+            d, rest = mdir.group(1), mdir.group(2)
+            if d in ('if', 'ifdef', 'ifndef'):
+                v = cond_value(d, rest)
+                stack.append([v is not None, True if v is None else v, bool(v)])
+            elif d == 'elif' and stack:
+                e = stack[-1]
+                if e[0]:
+                    e[1] = False if e[2] else True      # value of an #elif after a decided #if is not evaluated: treat as taken iff nothing was
+                    e[2] = e[2] or e[1]
+            elif d == 'else' and stack:
+                e = stack[-1]
+                if e[0]:
+                    e[1] = not e[2]
+                    e[2] = True
+            elif d == 'endif' and stack:
+                stack.pop()
+            out.append('')
+            i += 1
+            continue
+        if any(e[0] and not e[1] for e in stack):
+            out.append('')
+            i += 1
+            continue
         if ln.lstrip().startswith('#'):
             full = ln
             n = 1
